@@ -398,3 +398,11 @@ package keeper
 //@   loop L2 ensures [C01.maporder.penalty] forall k bytes :: rawsel(FaultIdx, k) ==
 //@       (indom(totalPenaltyMap, keyinv(Node, k)) && totalPenaltyMap[keyinv(Node, k)] > maxPenalty && has(Node, keyinv(Node, k)) && k == keyof(Node, keyinv(Node, k))
 //@          ? marshal(with(Node[keyinv(Node, k)], Status, Node[keyinv(Node, k)].Status & 1)) : entry(rawsel(FaultIdx, k)))
+
+// staking hooks: a node bonded to the validator is promoted only if it meets every requirement of the super role at that moment
+//@ func (Hooks) verifySuperStorageNodes(ctx, valAddr, accAddr, beforeDeletationRemoved)
+//@   modifies *
+//@   at SetSuperNode assert [C20.hook.promote] has(Node, sp) && (Node[sp].Status & 15) == 15 && Node[sp].Role == 0
+//@       && has(Pledge, sp) && Pledge[sp].TotalStorage >= param(KeyVstorageThreshold)
+//@       && shareOK(sp, val, sharesToSub, decFromStr(param(KeyShareThreshold)))
+//@   loop L1 invariant -1 <= rangeindex
